@@ -240,6 +240,15 @@ def monitors(cfg, obs_list):
             elif _delay_of(o.letters[0], T) is not None and _delay_of(o.letters[0], T) < T - TOL:
                 out.append(('C08', 'first-transmission-refused:no-retransmission',
                             f'{n} transmissions although #1 was answered by an exception frame; outcome {res[:2]}', i))
+        # what a request delivers is an answer to one of ITS OWN transmissions (nothing of an earlier request was in flight
+        # when it started): not a frame kept from an earlier request, and never without having transmitted at all
+        if res[0] == 'ok' and o.clean_start:
+            if n == 0:
+                out.append(('C01', 'delivered-without-transmitting', f'request {i + 1} returned {len(res[1])} bytes without sending anything', i))
+            elif not any(res[1].startswith(v) for v in o.valid_for if v is not None):
+                # (startswith: a stream transport may deliver the answer with trailing bytes of a duplicate; C01's
+                # classifier decides whether that is well-formed - here only: whose answer is it)
+                out.append(('C01', 'delivered-frame-answers-this-request', f'request {i + 1} returned a frame that answers none of its transmissions', i))
         # failures are InverterErrors, callbacks stay clean
         if res[0] == 'exc' and 'InverterError' not in res[3]:
             out.append(('C09', 'only-InverterError', res[1], i))
